@@ -48,6 +48,21 @@ def run(sc):
             sig = inspect.Signature([inspect.Parameter('p0', inspect.Parameter.POSITIONAL_OR_KEYWORD, annotation=ann)])
             msg = TaskiqMessage(task_id='i', task_name='t', labels={}, args=[dict(val)], kwargs={}); parse_params(sig, {'p0': ann}, msg)
             if type(msg.args[0]) is not ann: fails.append({'key': f"same-repr annotations, {'A then B' if first is A else 'B then A'}", 'failed_clauses': [f"C08: a value annotated with model {ann!r} (fields {list(ann.model_fields)}) arrived as {type(msg.args[0])!r} with fields {list(getattr(type(msg.args[0]), 'model_fields', {}))}: converted by another annotation's adapter"]})
+    # two tasks whose signatures are EQUAL as inspect.Signature objects (string annotations: `item: "Item"`, as under `from __future__ import annotations`)
+    # while their RESOLVED hints differ (each module has its own Item): each task's value must be converted by ITS hints, whichever was parsed first
+    I1 = pydantic.create_model('Item', value=(int, ...)); I2 = pydantic.create_model('Item', value=(str, ...))
+    for order in ((I1, I2), (I2, I1)):
+        n += 1
+        for ann in order:
+            for how in ('positional', 'keyword'):
+                sig = inspect.Signature([inspect.Parameter('item', inspect.Parameter.POSITIONAL_OR_KEYWORD, annotation='Item'), inspect.Parameter('note', inspect.Parameter.POSITIONAL_OR_KEYWORD, default=None)])
+                msg = TaskiqMessage(task_id='i', task_name='t', labels={}, args=[{'value': 7}] if how == 'positional' else [], kwargs={} if how == 'positional' else {'item': {'value': 7}})
+                parse_params(sig, {'item': ann}, msg); got = msg.args[0] if how == 'positional' else msg.kwargs['item']
+                want = ann(value=7) if ann is I1 else {'value': 7}          # int 7 is not convertible to the str field in pydantic's default (lax) mode: delivered unchanged
+                try: want = ann.model_validate({'value': 7})
+                except Exception: want = {'value': 7}
+                if type(got) is not type(want) or got != want:
+                    fails.append({'key': f"equal-signatures-different-hints/{'int-first' if order[0] is I1 else 'str-first'}/{how}", 'failed_clauses': [f"C08: {how} argument of a task annotated `item: \"Item\"` whose hint resolves to a model with field value: {'int' if ann is I1 else 'str'} arrived as {got!r} ({type(got).__module__}.{type(got).__qualname__}), expected {want!r}: parsed with the hints of another task whose signature text is equal"]})
     # two messages that carry EQUAL raw values for an annotated parameter must not share one parsed object (a mutable model / list would leak between executions)
     import typing as _t
     for ann, raw in ((_t.List[int], (1, 2)), (_t.Dict[str, int], None), (_t.Set[int], (3,))):
